@@ -207,6 +207,8 @@ def do_check(tier, seed, t0):
     listed = {f["id"]: f for f in known_findings("C06")}
     kf_count = totals["verdicts"]["known_finding"] + totals["fault_point_enumeration"]["known_finding"]
     kf_lines = []
+    if kf_count and kf_seen is None:
+        raise Harness("known-finding matches only among enumerated fault points and none among %d sampled runs" % totals["cases"])
     if kf_count:
         kid = kf_seen["id"]
         if kid in listed:
